@@ -7,6 +7,7 @@ import (
 	"fmt"
 	"os"
 	"path/filepath"
+	"regexp"
 	"sort"
 	"strconv"
 	"strings"
@@ -175,6 +176,16 @@ func oblRelevant(o *Obl, prop string, inSweep bool) bool {
 	return false
 }
 
+var reOrd = regexp.MustCompile(`(@\d+|#\d+)+$`)
+
+// groupName drops call-site / return-site ordinals: the lock file pins that a
+// function still generates obligations for a clause, not how many sites it has
+// (a refactoring may add or remove a return or a call site; every site that
+// exists is still checked under its own name).
+func groupName(n string) string {
+	return reOrd.ReplaceAllString(n, "")
+}
+
 func hashName(s string) string {
 	h := sha1.Sum([]byte(s))
 	return fmt.Sprintf("%x", h[:6])
@@ -188,7 +199,11 @@ func cmdCheck(args []string) int {
 	tier := fs.String("tier", "quick", "quick|thorough")
 	updateLock := fs.Bool("update-lock", false, "rewrite the lock file from this run (never used by registered commands)")
 	verbose := fs.Bool("v", false, "")
+	outDir := fs.String("out", "", "write evidence/, replays/, work/ below this directory instead of --verif (selftests)")
 	fs.Parse(args)
+	if *outDir == "" {
+		*outDir = *verif
+	}
 	if *prop == "" {
 		fmt.Fprintln(os.Stderr, "--prop required")
 		return 2
@@ -236,7 +251,7 @@ func cmdCheck(args []string) int {
 	if *tier == "thorough" {
 		timeout, agree = 60, true
 	}
-	work := filepath.Join(*verif, "work", *prop)
+	work := filepath.Join(*outDir, "work", *prop)
 	os.RemoveAll(work)
 	var jobs []job
 	var gens []*Gen
@@ -365,9 +380,13 @@ func cmdCheck(args []string) int {
 		fails = append(fails, failure{o.Name, o.Result, o})
 	}
 	if !*updateLock {
+		groups := map[string]bool{}
+		for n := range generated {
+			groups[groupName(n)] = true
+		}
 		for _, n := range lock.Claimed {
-			if _, ok := generated[n]; !ok {
-				fails = append(fails, failure{n, "contract target missing (obligation no longer generated)", nil})
+			if !groups[n] {
+				fails = append(fails, failure{n, "contract target missing (no obligation of this group is generated any more)", nil})
 			}
 		}
 	}
@@ -402,7 +421,16 @@ func cmdCheck(args []string) int {
 			o := j.o
 			if o.Result == "unsat" {
 				if !o.Safety {
-					nl.Claimed = append(nl.Claimed, o.Name)
+					gn := groupName(o.Name)
+					dup := false
+					for _, x := range nl.Claimed {
+						if x == gn {
+							dup = true
+						}
+					}
+					if !dup {
+						nl.Claimed = append(nl.Claimed, gn)
+					}
 				}
 			} else if _, ok := openKnown[o.Name]; !ok {
 				reason := lock.Undecided[o.Name]
@@ -433,7 +461,7 @@ func cmdCheck(args []string) int {
 		fmt.Printf("KNOWN-FINDING: property=%s %s — %s\n", *prop, kf.Obligation, kf.What)
 	}
 	exit := 0
-	os.MkdirAll(filepath.Join(*verif, "replays"), 0o755)
+	os.MkdirAll(filepath.Join(*outDir, "replays"), 0o755)
 	var violationRecords []map[string]interface{}
 	if !*updateLock {
 		for _, f := range fails {
@@ -448,7 +476,7 @@ func cmdCheck(args []string) int {
 					suffix = ""
 				}
 			}
-			path := filepath.Join(*verif, "replays", fmt.Sprintf("%s-%s.json", *prop, hashName(f.name)))
+			path := filepath.Join(*outDir, "replays", fmt.Sprintf("%s-%s.json", *prop, hashName(f.name)))
 			writeJSON(path, rec)
 			fmt.Printf("VIOLATION property=%s replay=%s%s\n", *prop, path, suffix)
 			fmt.Printf("  failed obligation: %s (%s)\n", f.name, f.reason)
@@ -519,7 +547,7 @@ func cmdCheck(args []string) int {
 		"explanation":              "each obligation is one SMT query generated from the go/ssa form of the function in /repo's working tree; a callee is represented by its contract only; loops by their invariants; unsat = discharged for all inputs",
 	}
 	ev.Assumptions = trusted
-	writeJSON(filepath.Join(*verif, "evidence", *prop+".json"), ev)
+	writeJSON(filepath.Join(*outDir, "evidence", *prop+".json"), ev)
 
 	fmt.Printf("%s %s: functions=%d obligations=%d discharged=%d known-findings=%d undecided(not claimed)=%d violations=%d cover=%d/%d wall=%.1fs\n",
 		*prop, *tier, len(gens), len(jobs), discharged, len(knownHit), undecidedN, len(fails), len(coverOK), len(covers), time.Since(t0).Seconds())
